@@ -1,2 +1,117 @@
-(* placeholder while the pipeline is brought up *)
-From Verif Require Import Common.Base C09.Model.
+(* C09/Properties.v — the property theorems, nothing else.  Each is closed by [exact lemma] and
+   followed by Print Assumptions (captured into the evidence by the check driver).
+   Vocabulary: Model.v (what the code computes: build, deliver, created, service_log, ...),
+   Spec.v (what the configuration says: cpath, instance_spec, connectors_supported, connector_cycle),
+   Proofs1.v (acyclic, is_walk), Proofs3.v (ends_exp). *)
+From Verif Require Import Common.Base C09.Model C09.Spec C09.Proofs1 C09.Proofs2 C09.Proofs3 C09.Proofs4 C09.Proofs5.
+From Coq Require Import Permutation.
+
+(* Build succeeds exactly when no pipeline lists a processor twice (else gonum panics; Validate
+   rejects that earlier), every connector use has a supported counterpart use, and the component
+   graph has no cycle; the graph is then the node/edge set the configuration determines. *)
+Theorem build_ok_iff : forall c g,
+  build c = Ok g <->
+  g = mkG (nodes_of c) (edges_of c) /\ procs_distinct c /\ connectors_supported c /\ acyclic (edges_of c).
+Proof. exact build_ok_iff_l. Qed.
+
+(* ... and a cycle of the component graph is exactly a cycle of connector usage between pipelines
+   (for a configuration with unique pipeline ids and no duplicated processor). *)
+Theorem graph_cycle_iff_connector_cycle : forall c,
+  wf_config c -> procs_distinct c -> (~ acyclic (edges_of c) <-> connector_cycle c).
+Proof. exact graph_cycle_iff_connector_cycle_l. Qed.
+
+(* "For every valid service configuration": unique pipeline ids, accepted by Validate, every
+   connector use with a supported counterpart, no cycle of connector usage => Build succeeds. *)
+Theorem valid_config_builds : forall c,
+  wf_config c -> validate c = true -> connectors_supported c -> ~ connector_cycle c ->
+  build c = Ok (mkG (nodes_of c) (edges_of c)).
+Proof. exact valid_config_builds_l. Qed.
+
+(* which error: panic (duplicated processor) before unsupported connector use before cycle *)
+Theorem build_error_class : forall c,
+  (build c = Err EPanic <-> ~ procs_distinct c) /\
+  (build c = Err EUnsupported <-> procs_distinct c /\ ~ connectors_supported c) /\
+  (build c = Err ECycle <-> procs_distinct c /\ connectors_supported c /\ ~ acyclic (edges_of c)).
+Proof. exact build_err_class. Qed.
+
+(* "Configurations whose connector usage forms a cycle, or that use a connector in a pipeline for
+   which it has no supported counterpart pipeline, are rejected at build time with an error ..." *)
+Theorem connector_cycle_rejected : forall c, connector_cycle c -> exists e, build c = Err e.
+Proof. exact connector_cycle_rejected_l. Qed.
+
+Theorem unsupported_connector_rejected : forall c, ~ connectors_supported c -> exists e, build c = Err e.
+Proof. exact unsupported_rejected_l. Qed.
+
+(* "... and nothing is started": a build error (or a Validate error) leaves an empty event log — no
+   factory call, no Start; and whenever a Start happens the build had succeeded and that very
+   component had been created by it. *)
+Theorem build_error_starts_nothing : forall c,
+  (forall e, build c = Err e -> service_log c = []) /\
+  (validate c = false -> service_log c = []) /\
+  (forall n, In (Start n) (service_log c) ->
+     validate c = true /\ exists g, build c = Ok g /\ In n (created g) /\ In (Create n) (service_log c)).
+Proof.
+  exact (fun c => conj (service_log_err c) (conj (service_log_invalid c) (service_log_start c))).
+Qed.
+
+(* Routing.  In a built graph, one datum emitted by receiver (s, i) travels along the complete walks
+   [deliver_walks]; these are duplicate-free, and those that end at an exporter are EXACTLY the
+   configuration-level paths [cpath] (through every pipeline of signal s listing i; in each pipeline
+   its processors in configured order; then each exporter of the pipeline, or each connector
+   instance and on into every pipeline listing the connector as a receiver).  Consequently what the
+   exporters record, [deliver], is — as a multiset — what ANY duplicate-free enumeration of the
+   configuration paths yields: exactly those exporters, once per path, with that trail. *)
+Theorem route_exact : forall c g s i,
+  wf_config c -> build c = Ok g -> In (Recv s i) (g_nodes g) ->
+  NoDup (deliver_walks g (Recv s i)) /\
+  (forall p, (In p (deliver_walks g (Recv s i)) /\ ends_exp p) <-> cpath c s i p) /\
+  (forall sp, NoDup sp -> (forall p, In p sp <-> cpath c s i p) ->
+              Permutation (deliver g (Recv s i)) (omap observe sp)).
+Proof. exact route_exact_l. Qed.
+
+(* ... element-wise: an exporter records (exporter, trail) iff that is the visible part (exporter
+   reached; processors and connector instances passed, in order) of a configuration path. *)
+Theorem deliver_in_iff : forall c g s i x,
+  wf_config c -> build c = Ok g -> In (Recv s i) (g_nodes g) ->
+  (In x (deliver g (Recv s i)) <-> exists p, cpath c s i p /\ observe p = Some x).
+Proof. exact deliver_in_iff_l. Qed.
+
+(* The router handed to the connector instance (a, b, k) offers exactly the pipelines of signal b that
+   list k as a receiver (k being used as exporter by some pipeline of signal a, pair supported). *)
+Theorem connector_router_exact : forall c g a b k p,
+  wf_config c -> build c = Ok g ->
+  (In p (router_pids g (Conn a b k)) <->
+   exists P Q, p = p_id Q /\ In P (pipes c) /\ In Q (pipes c) /\ p_sig P = a /\ p_sig Q = b /\
+               In k (p_exps P) /\ In k (p_recv Q) /\ supported c k a b = true).
+Proof. exact connector_router_exact_l. Qed.
+
+(* Instances.  The factory calls of a successful build are duplicate-free and are exactly: one
+   receiver per (signal, id) listed by some pipeline of that signal, one exporter per (signal, id),
+   one processor per (pipeline, id), one connector per (exporter signal, receiver signal, id) such
+   that the pair is supported and used on both sides. *)
+Theorem instances_exact : forall c g,
+  build c = Ok g -> NoDup (created g) /\ forall n, In n (created g) <-> instance_spec c n.
+Proof. exact instances_exact_l. Qed.
+
+(* The cycle named in the error message (accepted by the run-time check [check_cycle_report], which
+   the correspondence applies to every "cycle detected" message of the implementation) is a closed
+   walk of the model's edges that starts and ends at one connector node and whose processors and
+   connectors are, in order, the reported ones. *)
+Theorem cycle_message_names_cycle : forall c l,
+  check_cycle_report c l = true ->
+  exists a b k m, is_walk (edges_of c) (Conn a b k :: m ++ [Conn a b k]) /\
+                  filter visible (Conn a b k :: m ++ [Conn a b k]) = l.
+Proof. exact cycle_report_l. Qed.
+
+Print Assumptions build_ok_iff.
+Print Assumptions graph_cycle_iff_connector_cycle.
+Print Assumptions valid_config_builds.
+Print Assumptions build_error_class.
+Print Assumptions connector_cycle_rejected.
+Print Assumptions unsupported_connector_rejected.
+Print Assumptions build_error_starts_nothing.
+Print Assumptions route_exact.
+Print Assumptions deliver_in_iff.
+Print Assumptions connector_router_exact.
+Print Assumptions instances_exact.
+Print Assumptions cycle_message_names_cycle.
